@@ -7,7 +7,7 @@ STATE_NAMES = ["x", "v", "xx", "x_v1", "r", "rr", "z", "q1", "x_v1_v1", "u2"]
 ALG_NAMES = ["m", "r_out", "w1", "m_v1", "out"]
 INPUT_NAMES = ["r_in", "r_in0", "m_in", "m_in2", "inp", "x_in", "weight_in0"]
 CONST_NAMES = ["a", "k", "tau", "weight", "a1", "c_", "in_edge_0", "kk", "source", "index"]
-NODE_LABELS = ["p1", "p2", "p3", "pop", "n_1", "a", "b", "p10", "p1_v1", "node"]
+NODE_LABELS = ["p1", "p2", "p3", "pop", "n_1", "a_", "b", "p10", "p1_v1", "node"]
 CIRC_LABELS = ["c1", "c2", "sub", "lvl"]
 
 
@@ -35,7 +35,7 @@ def sum_terms(rng, terms):
     return e
 
 
-def gen_op(rng, name, n_inputs=None, input_names=None, funcs=None, hostile=True):
+def gen_op(rng, name, n_inputs=None, input_names=None, funcs=None, hostile=True, linear=False):
     """an operator: 1-2 state variables, optional algebraic (output) variable, inputs, constants; every declared name is used"""
     pick = (lambda pool, used: rng.choice([n for n in pool if n not in used]))
     used = set()
@@ -66,14 +66,14 @@ def gen_op(rng, name, n_inputs=None, input_names=None, funcs=None, hostile=True)
     # algebraic variables: alg[0] from states/consts/inputs; alg[1] may use alg[0]
     for i, a in enumerate(algs):
         pool = states + consts + inputs + algs[:i]
-        ts = [gen_term(rng, pool, states + consts + algs[:i], quadratic=True) for _ in range(rng.randint(1, 2))]
+        ts = [gen_term(rng, pool, states + consts + algs[:i], quadratic=not linear) for _ in range(rng.randint(1, 2))]
         if funcs and rng.random() < 0.5:
             f = rng.choice(funcs)
             ts.append(call(f, var(rng.choice(pool))))
         eqs.append({"lhs": a, "de": False, "rhs": sum_terms(rng, ts)})
     for s in states:
         pool = states + consts + inputs + algs
-        ts = [gen_term(rng, pool, states + consts + algs) for _ in range(rng.randint(1, 3))]
+        ts = [gen_term(rng, pool, states + consts + algs, quadratic=not linear) for _ in range(rng.randint(1, 3))]
         eqs.append({"lhs": s, "de": True, "rhs": sum_terms(rng, ts)})
     # make sure every input/const is mentioned (PyRates would otherwise treat the declaration as unused)
     from .mdl import fvars
@@ -82,7 +82,20 @@ def gen_op(rng, name, n_inputs=None, input_names=None, funcs=None, hostile=True)
         mentioned |= fvars(e["rhs"])
     for nm in sorted(pending - mentioned):
         tgt = rng.choice([e for e in eqs if e["de"]])
-        tgt["rhs"] = add(tgt["rhs"], mul(num(coef(rng)), var(nm))) if nm in inputs else add(tgt["rhs"], mul(var(nm), var(rng.choice(states))))
+        tgt["rhs"] = add(tgt["rhs"], mul(num(coef(rng)), var(nm))) if (nm in inputs or linear) else add(tgt["rhs"], mul(var(nm), var(rng.choice(states))))
+    # a right-hand side in which every variable cancels (2*v - 2*v) is folded to a number by sympy; keep those out of the main stream
+    from .mdl import ev
+    for e in eqs:
+        names_ = sorted(fvars(e["rhs"]))
+        vals_ = set()
+        for trial in range(4):
+            env = {nm: F(rng.randint(-7, 7) * 2 + 1, 3) for nm in names_}
+            try:
+                vals_.add(ev(e["rhs"], lambda x: env[x], {f: ["1", "2", "0"] for f in (funcs or [])}))
+            except Exception:
+                vals_.add(trial)
+        if len(vals_) == 1:
+            e["rhs"] = add(e["rhs"], mul(num(F(3, 2)), var(states[0])))
     if rng.random() < 0.5:
         rng.shuffle(eqs)                  # operator declaration order of equations is arbitrary
         # algebraic chains must still be evaluable; PyRates sorts them itself
@@ -102,11 +115,11 @@ def gen_op(rng, name, n_inputs=None, input_names=None, funcs=None, hostile=True)
     return {"name": name, "eqs": eqs, "vars": vars_, "_states": states, "_algs": algs, "_inputs": inputs, "_consts": consts, "_out": out}
 
 
-def gen_model(rng, max_nodes=5, depth=None, funcs=None, hostile=True, overrides=True):
+def gen_model(rng, max_nodes=5, depth=None, funcs=None, hostile=True, overrides=True, linear=False, clones=False, min_nodes=1):
     n_ops = rng.randint(1, 4)
     ops = {}
     for i in range(n_ops):
-        ops[f"O{i}"] = gen_op(rng, f"op{i}" if rng.random() < 0.8 else rng.choice(["op", "li_op", "in_edge_9"]) + str(i), funcs=funcs, hostile=hostile)
+        ops[f"O{i}"] = gen_op(rng, f"op{i}" if rng.random() < 0.8 else rng.choice(["op", "li_op", "in_edge_9"]) + str(i), funcs=funcs, hostile=hostile, linear=linear)
     # node templates: 1-3 operators, with in-node chaining: a later operator gets an input named like an earlier operator's output
     node_templates = {}
     n_nt = rng.randint(1, 3)
@@ -118,7 +131,7 @@ def gen_model(rng, max_nodes=5, depth=None, funcs=None, hostile=True, overrides=
             # build a dedicated consumer operator whose input is fed by the output(s) of the other operators of this node
             src = ops[chosen[0]]
             oid = f"C{extra}"; extra += 1
-            cons = gen_op(rng, f"cop{oid}", n_inputs=rng.choice([1, 2]), input_names=[src["_out"]], funcs=funcs, hostile=hostile)
+            cons = gen_op(rng, f"cop{oid}", n_inputs=rng.choice([1, 2]), input_names=[src["_out"]], funcs=funcs, hostile=hostile, linear=linear)
             if cons["_out"] not in [v for o in chosen for v in ops[o]["_inputs"]] and src["_out"] in cons["_inputs"]:
                 ops[oid] = cons
                 chosen = chosen[:rng.randint(1, len(chosen))] + [oid]
@@ -153,12 +166,23 @@ def gen_model(rng, max_nodes=5, depth=None, funcs=None, hostile=True, overrides=
     node_templates = {k: v for k, v in node_templates.items() if ok(v)}
     if not node_templates:
         node_templates = {"N0": {"name": "nt0", "ops": [sorted(ops)[0]]}}
+    if clones:
+        # structurally identical node templates with different per-node values: they are merged by vectorization
+        for k in list(node_templates):
+            for j in range(rng.choice([1, 2, 3])):
+                nt = node_templates[k]
+                cl = {"name": f"{nt['name']}c{j}", "ops": list(nt["ops"]), "overrides": {}}
+                for o in nt["ops"]:
+                    names = ops[o]["_consts"] + ops[o]["_states"] + ([i for i in ops[o]["_inputs"]] if rng.random() < 0.3 else [])
+                    for nm in rng.sample(names, rng.randint(0, len(names))):
+                        cl["overrides"].setdefault(o, {})[nm] = str(F(rng.randint(-4, 4), rng.choice([1, 2])))
+                node_templates[f"{k}c{j}"] = cl
     depth = rng.choice([0, 0, 1, 2]) if depth is None else depth
 
     def gen_circ(level, name):
         if level == 0:
-            n = rng.randint(1, max_nodes)
-            labels = rng.sample(NODE_LABELS if hostile else NODE_LABELS[:5], n)
+            n = rng.randint(min_nodes, max_nodes)
+            labels = rng.sample(NODE_LABELS if hostile else NODE_LABELS[:7], n)
             return {"name": name, "nodes": {l: rng.choice(sorted(node_templates)) for l in labels}, "edges": []}
         k = rng.randint(1, 2)
         labels = rng.sample(CIRC_LABELS, k)
